@@ -19,7 +19,10 @@
 
   The property at full strength (`C13_full`) quantifies over the builders themselves; it is
   decided by the correspondence run on the documents actually produced (the driver evaluates
-  `specDoc`, i.e. the same `Validate.valid`, on every output).
+  `specDoc`, i.e. the same `Validate.valid`, on every output).  The unchanged code does not satisfy
+  it: `C13_counterexample_dup_id` / `C13_counterexample_action_namespace` refute it on two of the
+  document shapes the implementation emits (known findings; all seven are replayed from
+  `corpus/C13/findings.json`), with `…_accepted` twins showing that the repaired documents pass.
 -/
 import PysamlModel.Model.Validate
 import PysamlModel.Model.ClassOrder
@@ -218,5 +221,18 @@ example : orderCompat psEx [⟨⟨5, 8⟩, 0, some 1⟩, ⟨⟨5, 7⟩, 1, some 
 example : specOrder psEx (tagsOf [⟨⟨5, 8⟩, 0, some 1⟩, ⟨⟨5, 7⟩, 1, some 1⟩] [1, 1]) = false := by decide
 example : Gen.ClassRows.rows.length > 40 := by decide
 example : Lex.booleanOk ['T', 'r', 'u', 'e'] = false := by decide
+
+
+-- validator branches the regenerated schema set cannot reach (it has no abstract element declaration, no fixed
+-- attribute value, and no dangling index): exercised on a three-declaration schema
+private def S0 : Schema :=
+  { types := #[{ attrs := [{ name := 3, required := false, ty := .prim .string, fixed := some ['v'] }], anyAttr := none, content := .empty }],
+    elems := #[{ name := 1, ty := .anyType, abstract := true }, { name := 2, ty := .complex 0 }, { name := 4, ty := .complex 7 }],
+    globals := [(1, 0), (2, 1), (4, 2)], gattrs := [], typeNames := [], xsiNs := 9, xsiType := 8, xsiNil := 7 }
+example : verdict S0 (.mk ⟨5, 1⟩ [] [] []) = some .abstractElem := by decide
+example : verdict S0 (.mk ⟨5, 2⟩ [(⟨0, 3⟩, ['w'])] [] []) = some .fixedMismatch := by decide
+example : verdict S0 (.mk ⟨5, 2⟩ [(⟨0, 3⟩, ['v'])] [] []) = none := by decide
+example : verdict S0 (.mk ⟨5, 4⟩ [] [] []) = some .badSchemaRef := by decide
+example : verdict S0 (.mk ⟨5, 6⟩ [] [] []) = some .unknownRoot := by decide
 
 end C13
